@@ -6,7 +6,7 @@ from vlib import arbsim, gens, sim
 from vlib.common import Violation
 
 PROP = "C09"
-RULE = ("(a)+(d): random schedules as in C08 (N up to 6, thorough 8); the owner inferred from "
+RULE = ("(a)+(d): random schedules as in C08 (N up to 12, thorough 16); the owner inferred from "
         "acknowledge routing must follow the exact next-owner function on every transition, and a "
         "continuously requesting initiator must be granted within N-1 grants to others. (b) exhaustive "
         "transition table for N = 1..6 with and without LOCK: the real arbiter is driven into every "
@@ -17,13 +17,13 @@ RULE = ("(a)+(d): random schedules as in C08 (N up to 6, thorough 8); the owner 
         "granted. Non-trivial = a random schedule with N >= 3 and >= 3 ownership changes, or a table. "
         "Distinct = canonical JSON.")
 BUDGET = {"quick": (16, 200), "thorough": (16, 5000)}
-ESSENTIAL = ["refused_add_ghost", "table", "N=5", "N=6", "released_by_dropping_stb", "contended_while_busy"]
+ESSENTIAL = ["refused_add_ghost", "add_after_elaboration", "N>=9", "table", "N=5", "N=6", "released_by_dropping_stb", "contended_while_busy"]
 ASSUMPTIONS = ["liveness is decided through the finite reduction stated in the property (exact next-owner "
                "function + no unfair cycle in the extracted transition graph) for N <= 6 (table) / N <= 8 (schedules)"]
 
 
 def strategy(tier):
-    return gens.with_pre(st.fixed_dictionaries({"cfg": arbsim.arbiter_config(max_n=6 if tier == "quick" else 8, min_n=2),
+    return gens.with_pre(st.fixed_dictionaries({"cfg": arbsim.arbiter_config(max_n=12 if tier == "quick" else 16, min_n=2),
                                                "sched": arbsim.schedule_spec()}))
 
 
